@@ -373,8 +373,9 @@ func (g *vcgen) lin(v ssa.Value) string {
 				switch {
 				case f.Pkg.Pkg.Path() == "sort" && f.Name() == "Search":
 					a := g.atom(v)
+					n := g.lin(x.Call.Args[0])
 					g.hyp("0 ≤ " + a)
-					g.hyp(a + " ≤ " + g.lin(x.Call.Args[0]))
+					g.hyp(n + " < 0 ∨ " + a + " ≤ " + n)
 					return a
 				case f.Pkg.Pkg.Path() == "sort" && (f.Name() == "SearchStrings" || f.Name() == "SearchInts" || f.Name() == "SearchFloat64s"):
 					a := g.atom(v)
@@ -826,7 +827,7 @@ func (g *vcgen) libFacts(v ssa.Value) {
 func vcVariants(ins ssa.Instruction, depth int) (out [][3]interface{}, ok bool) {
 	f := ins.Parent()
 	internal := func(f *ssa.Function) bool {
-		return f != nil && f.Parent() == nil && !token.IsExported(f.Name()) && !vcValueUse[f] && len(vcCallers[f]) > 0
+		return f != nil && f.Parent() == nil && !token.IsExported(f.Name()) && !vcValueUse[f] && len(vcCallers[f]) > 0 && !dynamicallyCallable(f)
 	}
 	if !internal(f) {
 		return nil, false
@@ -1007,7 +1008,7 @@ func valueRange(v ssa.Value, rest string) (lo, hi int64, hiKnown bool, ok bool) 
 		case *ssa.Parameter:
 			// an aggregate passed by value to an internal function / method: whatever its call sites pass
 			fn := x.Parent()
-			if fn == nil || fn.Parent() != nil || token.IsExported(fn.Name()) || vcValueUse[fn] || len(vcCallers[fn]) == 0 || tableDepth >= 4 {
+			if fn == nil || fn.Parent() != nil || token.IsExported(fn.Name()) || vcValueUse[fn] || len(vcCallers[fn]) == 0 || tableDepth >= 4 || dynamicallyCallable(fn) {
 				return 0, 0, false, false
 			}
 			ix := -1
@@ -1113,6 +1114,33 @@ func tableRange(addr ssa.Value, extra string) (lo, hi int64, hiKnown bool, ok bo
 		}
 		fns = []*ssa.Function{b.Parent()}
 	case *ssa.Global:
+		if token.IsExported(b.Name()) {
+			return 0, 0, false, false // a user of the package may write it
+		}
+		for _, f := range vcAllFns {
+			for _, blk := range f.Blocks {
+				for _, ins := range blk.Instrs {
+					for _, op := range ins.Operands(nil) {
+						if op == nil || *op != ssa.Value(b) {
+							continue
+						}
+						switch y := ins.(type) {
+						case *ssa.IndexAddr, *ssa.FieldAddr, *ssa.DebugRef:
+						case *ssa.UnOp:
+							if y.Op != token.MUL || pointerLike(y.Type()) {
+								return 0, 0, false, false
+							}
+						case *ssa.Store:
+							if y.Addr != ssa.Value(b) {
+								return 0, 0, false, false
+							}
+						default:
+							return 0, 0, false, false // sliced, passed on, compared …: its memory may be reachable elsewhere
+						}
+					}
+				}
+			}
+		}
 		fns = vcAllFns
 	}
 	seen := false
@@ -1260,4 +1288,40 @@ func readOnlySlot(al *ssa.Alloc) bool {
 		return true
 	}
 	return ok(al, true, 0) && stores == 1
+}
+
+
+// dynamicallyCallable: a method whose receiver type (or a pointer to it) is converted to an interface somewhere in the
+// analysed code may be called through that interface — its static call sites are then not all of its call sites
+var ifaceTypesMemo map[string]bool
+
+func dynamicallyCallable(f *ssa.Function) bool {
+	recv := f.Signature.Recv()
+	if recv == nil {
+		return false
+	}
+	if ifaceTypesMemo == nil {
+		ifaceTypesMemo = map[string]bool{}
+		for _, fn := range vcAllFns {
+			for _, blk := range fn.Blocks {
+				for _, ins := range blk.Instrs {
+					if mi, ok := ins.(*ssa.MakeInterface); ok {
+						t := mi.X.Type()
+						ifaceTypesMemo[t.String()] = true
+						if p, ok := t.Underlying().(*types.Pointer); ok {
+							ifaceTypesMemo[p.Elem().String()] = true
+						}
+					}
+				}
+			}
+		}
+	}
+	t := recv.Type()
+	if ifaceTypesMemo[t.String()] {
+		return true
+	}
+	if p, ok := t.Underlying().(*types.Pointer); ok && ifaceTypesMemo[p.Elem().String()] {
+		return true
+	}
+	return ifaceTypesMemo[types.NewPointer(t).String()]
 }
